@@ -17,11 +17,11 @@ func ztoShortExact(f float32) bool {
 		return false
 	}
 	k := math.Round(float64(f) * 15120)
-	if float32(k/15120) == f && k < 15120 {
+	if float32(k)/15120 == f && k < 15120 {
 		return true
 	}
 	k = math.Round(float64(f) * 120)
-	return float32(k/120) == f && k < 120
+	return float32(k)/120 == f && k < 120
 }
 
 // ruleReal: LOD values.
